@@ -69,7 +69,7 @@ impl<'a, T: Read + Write + Seek> PointCloudWriter<'a, T> {
         Self::validate_prototype(&prototype)?;
 
         // Calculate max number of points per packet
-        let max_points_per_packet = get_max_packet_points(&prototype);
+        let max_points_per_packet = get_max_packet_points(&prototype)?;
 
         // Prepare byte stream buffers
         let byte_streams = vec![ByteStreamWriteBuffer::new(); prototype.len()];
@@ -735,12 +735,22 @@ fn validate_return(prototype: &[Record]) -> Result<()> {
 /// Each data packet can contain up to 2^16 bytes, but we need some reserved
 /// space for header data. We also need to consider some "incomplete" bytes
 /// from record value sizes that are not a multiple of 8 bits.
-fn get_max_packet_points(prototype: &[Record]) -> usize {
+fn get_max_packet_points(prototype: &[Record]) -> Result<usize> {
     const SAFETY_MARGIN: usize = 500;
     let point_size_bits: usize = prototype.iter().map(|p| p.data_type.bit_size()).sum();
+    if point_size_bits == 0 {
+        Error::invalid("At least one record of the prototype must have a non-empty value range")?
+    }
     let bs_size_headers = prototype.len() * 2; // u16 for each byte stream header
     let headers_size = DataPacketHeader::SIZE + bs_size_headers;
     let max_incomplete_bytes = prototype.len();
     let u16_max = u16::MAX as usize;
-    ((u16_max - headers_size - max_incomplete_bytes - SAFETY_MARGIN) * 8) / point_size_bits
+    let max_points = u16_max
+        .checked_sub(headers_size + max_incomplete_bytes + SAFETY_MARGIN)
+        .map(|payload_bytes| (payload_bytes * 8) / point_size_bits)
+        .unwrap_or(0);
+    if max_points == 0 {
+        Error::invalid("The prototype is too big, a single point does not fit into a data packet")?
+    }
+    Ok(max_points)
 }
